@@ -200,6 +200,14 @@ def handle : List String → String
       | .ok () => "ok"
       | .error e => s!"err {e.name}"
     | _, _, _, _ => "bad-op"
+  | ["pow.valid", bits, limit, hash] =>
+    -- BlockHeader.assert_valid_pow(pow_limit_bits) for a header with these bits and this hash
+    match fromHex? bits, fromHex? limit, fromHex? hash with
+    | some b, some l, some h =>
+      match Block.assertValidPow b l h with
+      | .ok () => "ok"
+      | .error e => s!"err {e.name}"
+    | _, _, _ => "bad-op"
   | ["pow.chainwork", bs] =>
     match hexList? bs with
     | some bs => Gen.render (Block.chainWork bs)
